@@ -8,6 +8,7 @@ import (
 	"errors"
 	"fmt"
 	"io"
+	"runtime"
 
 	cose "github.com/veraison/go-cose"
 
@@ -443,6 +444,13 @@ func c20Sign(r *Run, t *tape.Tape, e c20Entry, n int, vec []int) {
 			m.Signatures = append(m.Signatures, &cose.Signature{Headers: hdr(c.key)})
 			signers[i] = c.signer()
 		}
+		if n >= 2 && t.Bool(1, 4, "c20.slowfirst") {
+			// a slow first device (it yields the processor a number of times
+			// before answering): whatever else the library has going on in the
+			// meantime gets to run first
+			signers[0] = &slowSigner{inner: signers[0], yields: 1 + t.Choose(200, "c20.slowfirst.n")}
+			r.Fired("signer.slow")
+		}
 		if t.Bool(1, 4, "c20.relayed") {
 			// the message object comes out of a decoder (a relay that signs a
 			// received COSE_Sign anew): healthy signing, wire, decode, slots
@@ -849,3 +857,17 @@ func c20Verify(r *Run, t *tape.Tape, e c20Entry, n int, vec []int) {
 }
 
 var _ = refcose.KSign1Tagged
+
+// slowSigner answers after yielding the processor a number of times.
+type slowSigner struct {
+	inner  cose.Signer
+	yields int
+}
+
+func (s *slowSigner) Algorithm() cose.Algorithm { return s.inner.Algorithm() }
+func (s *slowSigner) Sign(rand io.Reader, content []byte) ([]byte, error) {
+	for i := 0; i < s.yields; i++ {
+		runtime.Gosched()
+	}
+	return s.inner.Sign(rand, content)
+}
